@@ -4,7 +4,7 @@ from vlib.ctx import Ref, same
 EXPLANATION = ("a[start:stop:step] through the real DimArray.__getitem__ / _get_indices / Axis.loc / locate_slice / "
                "_locate_slice_strict with symbolic labels, bounds and data; oracle: inclusive box in traversal direction "
                "(monotonic numeric axes) or first-to-second existing label (other axes); position slices vs python list slicing")
-ASSUMPTIONS = ["labels on an axis are pairwise distinct", "for the bounding-box statement the axis is strictly monotonic"]
+ASSUMPTIONS = ["labels on an axis are pairwise distinct, except in the mono-ties templates (monotonic, not strictly: neighbouring labels may coincide)", "for the bounding-box statement the axis is monotonic with distinct end points"]
 BOUNDS = {'quick': {'n': '0..4', 'step': [None, 1, 2, 3, -1, -2], 'nd': '1..2'},
           'thorough': {'n': '0..5', 'step': [None, 1, 2, 3, -1, -2], 'nd': '1..3'}}
 DEADLINE = {'quick': 100, 'thorough': 900}
@@ -89,7 +89,7 @@ def slice_1d(ctx, n, lkind, order, sk, ek, step, bkind, via='getitem', prime=Fal
     if strict:
         pos = strict_positions(ctx, labels, start, stop, step)
     else:
-        inc = True if n < 2 else bool(labels[0] < labels[1])
+        inc = True if n < 2 else bool(labels[0] < labels[n - 1])
         pos = box_positions(ctx, labels, start, stop, step, inc)
     if n == 0:
         pass
@@ -271,6 +271,12 @@ def templates():
             add('mono-via-%s-under-position-step%s' % (via, step), 'slice_1d', cost=0.5, n=3, lkind='i', order='inc' if step is None else 'dec', sk='sym', ek='sym', step=step, bkind='i', via=via, under={'indexing.by': 'position'})
     for via in ('iloc', 'take'):
         add('pos-%s-under-position' % via, 'pos_slices', cost=2.0, n=3, m=2, lkind='i', via=via, under={'indexing.by': 'position'})
+    # monotonic axes with repeated labels (the bounding box takes every position whose label lies within the bounds)
+    for order in ('inc-ties', 'dec-ties'):
+        for n in (3, 4):
+            for step in (None, -1, 2):
+                add('mono-ties-%s-n%d-step%s' % (order, n, step), 'slice_1d', 'quick' if n == 3 or step is None else 'thorough', cost=0.5 * n, n=n, lkind='i', order=order, sk='sym', ek='sym', step=step, bkind='i')
+        add('mono-ties-%s-open' % order, 'slice_1d', cost=1, n=3, lkind='f', order=order, sk='sym', ek='none', step=None, bkind='f')
     # spellings
     for via in ('take', 'loc', 'sel'):
         for step in (None, -1):
